@@ -169,13 +169,15 @@ pub fn threads(sink: &mut Sink, seed: u64, thorough: bool, grp0: u64) {
         let input: Vec<u8> = { let mut r2 = rng(seed, 43); payload(&mut r2, 2, 2300, true) };       // a version-40 symbol: milliseconds per build, so that builds really overlap
         let shared = Arc::new({ let mut b = QRBuilder::new(input.clone()); apply_set(&mut b, 0, 1); b });
         let nthreads = if thorough { 400 } else { 160 };
-        let barrier = Arc::new(std::sync::Barrier::new(nthreads));
-        let handles: Vec<_> = (0..nthreads).map(|t| { let (shared, barrier) = (shared.clone(), barrier.clone()); std::thread::Builder::new().stack_size(2 << 20).spawn(move || {
-            barrier.wait();
+        // released together by a flag (not a Barrier: if the system refuses some of the threads the others must still start)
+        let go = Arc::new((std::sync::Mutex::new(false), std::sync::Condvar::new()));
+        let handles: Vec<_> = (0..nthreads).map(|t| { let (shared, go) = (shared.clone(), go.clone()); std::thread::Builder::new().stack_size(2 << 20).spawn(move || {
+            { let (m, cv) = &*go; let mut started = m.lock().unwrap_or_else(|e| e.into_inner()); while !*started { started = cv.wait(started).unwrap_or_else(|e| e.into_inner()); } }
             let mut outs: Vec<Value> = Vec::new();
             for k in 0..24 { let mut o = build_out(&shared); if let Some(m) = o.as_object_mut() { m.remove("vals"); m.remove("types"); } if k == 0 || k == 23 || o["kind"] != "Ok" { outs.push(o); } }
             (t, outs)
         }) }).filter_map(|h| h.ok()).collect();
+        { let (m, cv) = &*go; *m.lock().unwrap_or_else(|e| e.into_inner()) = true; cv.notify_all(); }
         let id = sink.id();
         sink.emit(&json!({"ev": "HNew", "id": id, "grp": grp, "tid": 0, "seq": 1, "bid": 1000, "tag": "hnew", "input": input}));
         let mut ev = set_event(grp, 0, 2, 1000, 0, 1); ev["id"] = json!(sink.id()); sink.emit(&ev);
